@@ -538,6 +538,62 @@ def serve (q : Req) : Effects :=
       else if q.special then { resp := if q.writeErr then none else some ⟨0, false, .none⟩ }
       else initialmw q
 
+/-! ## Where the profile's switches come from
+
+The `Prof` that `recordQueryInfo` reads is not written by hand in production: the backend's
+`DNSProfile` message is converted by `backendpb.DNSProfile.toInternal`, a full synchronisation writes
+the profile to the cache file (`filecachepb.profilesToProtobuf`), and after a restart the profile is
+the one read back from that file (`filecachepb.Profile.toInternal`).  The three converters are modelled
+on the fields this property is about; each is a field-by-field copy in the code (Tie/TrC15:
+`fcProfileToInternal_switches`, `bpProfileToInternal_switches`; Tie/C15: `cache_profile_literal`). -/
+
+/-- The backend's `DNSProfile` message: `dns_id`, `query_log_enabled`, `ip_log_enabled`, `deleted`. -/
+structure WireProf where
+  id : Str
+  qlog : Bool
+  iplog : Bool
+  deleted : Bool
+deriving Repr, DecidableEq
+
+/-- `agd.Profile` as far as the request path reads it: the profile and `Profile.Deleted`. -/
+structure DBProf where
+  prof : Prof
+  deleted : Bool
+deriving Repr, DecidableEq
+
+/-- `filecachepb.Profile`: `profile_id`, `query_log_enabled`, `ip_log_enabled`, `deleted`. -/
+structure CacheProf where
+  id : Str
+  qlog : Bool
+  iplog : Bool
+  deleted : Bool
+deriving Repr, DecidableEq
+
+/-- `backendpb.DNSProfile.toInternal`. -/
+def profOfBackend (w : WireProf) : DBProf := ⟨⟨w.id, w.qlog, w.iplog⟩, w.deleted⟩
+
+/-- `filecachepb.profilesToProtobuf`. -/
+def cacheOfProf (p : DBProf) : CacheProf := ⟨p.prof.id, p.prof.qlog, p.prof.iplog, p.deleted⟩
+
+/-- `filecachepb.Profile.toInternal`. -/
+def profOfCache (c : CacheProf) : DBProf := ⟨⟨c.id, c.qlog, c.iplog⟩, c.deleted⟩
+
+/-- Where the profile database has the profile from: a synchronisation with the backend, or the cache
+file written by an earlier full synchronisation. -/
+inductive Source where
+  | backend
+  | cacheFile
+deriving Repr, DecidableEq
+
+/-- The profile the database holds for the backend's message `w`. -/
+def profFrom : Source → WireProf → DBProf
+  | .backend, w => profOfBackend w
+  | .cacheFile, w => profOfCache (cacheOfProf (profOfBackend w))
+
+/-- The database's answer for a device `dev` of the profile of message `w`. -/
+def lookupFrom (src : Source) (w : WireProf) (dev : Str) (authOK : Bool) : Lookup :=
+  .found (profFrom src w).prof dev (profFrom src w).deleted authOK
+
 /-! ## The log file under concurrent writers -/
 
 /-- A pooled `entryBuffer`: the `jsonlEntry` (as the entry and its random number) and the bytes. -/
